@@ -465,6 +465,50 @@ def check_rewrites(variant, seed, res):
                     break
             else:
                 res.outcome(('rewrite', seq))
+    # writes with edits in between: what is written always encodes the memory as it is NOW (no row text kept from an
+    # earlier write); every way of changing memory: each accessor, the map's rows 32-63 (they live in gfx memory), raw
+    # cart-memory writes
+    edits = [('map.set_cell(5, 40, 0x9c)', lambda g: g.map.set_cell(5, 40, 0x9c)),
+             ('map.set_rect_tiles rows 31-33', lambda g: g.map.set_rect_tiles([[1, 2, 3], [4, 5, 6], [7, 8, 9]], 100, 31)),
+             ('write_cart_data 0x0ffe..0x1002', lambda g: g.write_cart_data(b'\x12\x34\x56\x78', 0x0ffe)),
+             ('write_cart_data 0x2ffe..0x3202', lambda g: g.write_cart_data(bytes((i * 7 + 1) & 0xff for i in range(0x204)), 0x2ffe)),
+             ('gfx.set_sprite(17, ...)', lambda g: g.gfx.set_sprite(17, [[(x + y) % 16 for x in range(8)] for y in range(8)])),
+             ('gff.set_flags(3, 0xa5)', lambda g: g.gff.set_flags(3, 0xa5)),
+             ('sfx.set_note(2, 3, ...)', lambda g: g.sfx.set_note(2, 3, pitch=40, waveform=9, volume=5, effect=3)),
+             ('sfx.set_properties(7, ...)', lambda g: g.sfx.set_properties(7, editor_mode=1, note_duration=9, loop_start=2, loop_end=30)),
+             ('music.set_channel(1, 2, 33)', lambda g: g.music.set_channel(1, 2, 33)),
+             ('music.set_properties(0, ...)', lambda g: g.music.set_properties(0, begin=True, end=False, stop=True))]
+    for first in ('p8', 'png'):
+        g = make_game(fills, version=33, code=code)
+        try:
+            write(g, first)
+            for name, edit in edits:
+                edit(g)
+                now = {n: bytes(getattr(g, n).to_bytes()) for n, _ in rc.REGION_ORDER}
+                now['music'] = bytes((b & 0x7f) if i % 4 == 3 else b for i, b in enumerate(now['music']))
+                for fmt in ('p8', 'png'):
+                    res.evaluations += 1
+                    res.nontriv(('edit-rewrite', variant, first, name, fmt))
+                    got = content(write(g, fmt), fmt)
+                    fresh = make_game(now, version=33, code=code)
+                    want = content(write(fresh, fmt), fmt)
+                    if fmt == 'png':
+                        gm, wm = bytearray(got), bytearray(want)
+                        for i in range(0x3103, 0x3200, 4):
+                            gm[i] &= 0x7f
+                            wm[i] &= 0x7f
+                        got, want = bytes(gm), bytes(wm)
+                    if got != want:
+                        res.violation('C16|rewrite|stale-after-edit|%s|%s' % (name.split('(')[0].split(' ')[0], fmt),
+                                      'Game written as %s, then %s, then written as %s: the file does not encode the memory as it is now '
+                                      '(a fresh Game holding the same bytes gives another file)' % (first, name, fmt),
+                                      {'kind': 'rewrite', 'variant': variant, 'seed': seed})
+                        raise StopIteration
+        except StopIteration:
+            pass
+        except Exception as e:
+            res.violation('C16|rewrite|edit-raise|%s' % type(e).__name__, 'write / edit / write history raised %r' % (e,),
+                          {'kind': 'rewrite', 'variant': variant, 'seed': seed})
 
 # ---------------------------------------------------------------- driver
 SFX_SPECIAL_HEADERS = [(0, 16, 0, 0), (0, 1, 0, 0), (0, 0, 0, 0), (1, 16, 0, 0), (0, 16, 0, 1), (0, 32, 0, 0)]
